@@ -224,8 +224,14 @@ fn parse_inner(p: &mut P<'_>, ext: bool) -> Result<RuleSpec, Fail> {
 
 /// Expected decoding of a TZ description. `ext` = RFC 8536 extensions (version-3 footers only).
 pub fn parse(s: &[u8], ext: bool) -> Expect<RuleSpec> {
-    if s.iter().any(|c| c.is_ascii_whitespace()) {
-        return Expect::Unspec; // the entry points trim differently and the statement is silent
+    // blanks *around* a description: the entry points trim differently and the statement is silent. Blanks *inside*
+    // one are in no production of the grammar: not a sentence ("anything else ... is rejected")
+    let ws = |c: &u8| c.is_ascii_whitespace();
+    if s.first().map(ws) == Some(true) || s.last().map(ws) == Some(true) {
+        return Expect::Unspec;
+    }
+    if s.iter().any(ws) {
+        return Expect::MustFail;
     }
     let mut p = P { b: s, i: 0, unspec: false };
     let r = parse_inner(&mut p, ext);
